@@ -40,7 +40,12 @@ impl Status { #[verifier::external_body] pub fn invalid_argument<B>(msg: B) -> S
 
 #[verifier::external_body] pub struct VxReply { _p: u8 }
 #[verifier::external_body] pub struct VxChanView { _p: u8 }
-#[verifier::external_body] pub struct VxChan { _p: u8 }        // the channel the closure is handed (&mut Channel)
+// the channel the closure is handed (&mut Channel): its public enforcement state is visible (a closure that writes it directly,
+// instead of going through a Channel operation, changes the channel's view and fails its contract), the rest is opaque
+pub struct VxEnforcementState { pub next_holder_commit_num: u64, pub next_counterparty_commit_num: u64, pub next_counterparty_revoke_num: u64, pub channel_closed: bool,
+    pub initial_holder_value: u64, pub rest: VxChanRest }
+pub struct VxChan { pub enforcement_state: VxEnforcementState, pub rest: VxChanRest }
+#[verifier::external_body] pub struct VxChanRest { _p: u8 }
 #[verifier::external_body] pub struct VxNodeH { _p: u8 }
 #[verifier::external_body] pub struct VxHandlerRest { _p: u8 }
 // vls-protocol wire types
@@ -152,6 +157,7 @@ pub uninterp spec fn chan_validated_cp_revocation(c: VxChanView, n: u64, secret:
 pub uninterp spec fn chan_signed_holder2(c: VxChanView, n: u64, r: Result<Signature, Status>, after: VxChanView) -> bool;
 pub uninterp spec fn chan_point(c: VxChanView, n: u64, r: Result<PublicKey, Status>) -> bool;
 pub uninterp spec fn chan_secret(c: VxChanView, n: u64, r: Result<SecretKey, Status>) -> bool;
+pub uninterp spec fn chan_checked_future_secret(c: VxChanView, n: u64, secret: SecretKey, r: Result<bool, Status>) -> bool;
 pub uninterp spec fn chan_validated_holder(c: VxChanView, n: u64, feerate: u32, to_local: u64, to_remote: u64, offered: Seq<HTLCInfo2>, received: Seq<HTLCInfo2>,
     sig: Signature, htlc_sigs: Seq<Signature>, after: VxChanView) -> bool;
 pub uninterp spec fn chan_revoked(c: VxChanView, n: u64, r: Result<(PublicKey, Option<SecretKey>), Status>, after: VxChanView) -> bool;
@@ -179,6 +185,8 @@ impl VxChan {
     pub fn get_per_commitment_point(&self, commitment_number: u64) -> (r: Result<PublicKey, Status>) ensures chan_point(self@, commitment_number, r) { unimplemented!() }
     #[verifier::external_body]
     pub fn get_per_commitment_secret(&self, commitment_number: u64) -> (r: Result<SecretKey, Status>) ensures chan_secret(self@, commitment_number, r) { unimplemented!() }
+    #[verifier::external_body]
+    pub fn check_future_secret(&self, commitment_number: u64, suggested: &SecretKey) -> (r: Result<bool, Status>) ensures chan_checked_future_secret(self@, commitment_number, *suggested, r) { unimplemented!() }
     #[verifier::external_body]
     pub fn validate_holder_commitment_tx_phase2(&mut self, commitment_number: u64, feerate_per_kw: u32, to_holder_value_sat: u64, to_counterparty_value_sat: u64,
         offered_htlcs: Vec<HTLCInfo2>, received_htlcs: Vec<HTLCInfo2>, counterparty_commit_sig: &Signature, counterparty_htlc_sigs: &Vec<Signature>) -> (r: Result<(), Status>)
@@ -238,6 +246,7 @@ pub struct ValidateCommitmentTx2 { pub commitment_number: u64, pub feerate: u32,
     pub signature: BitcoinSignature, pub htlc_signatures: VxSigArray }
 pub struct RevokeCommitmentTx { pub commitment_number: u64 }
 pub struct GetPerCommitmentPoint { pub commitment_number: u64 }
+pub struct CheckFutureSecret { pub commitment_number: u64, pub secret: DisclosedSecret }
 pub struct SignMutualCloseTx2 { pub to_local_value_sat: u64, pub to_remote_value_sat: u64, pub local_script: Octets, pub remote_script: Octets, pub local_wallet_path_hint: VxPathHint }
 pub struct ChannelHandler { pub node: VxNodeH, pub channel_id: ChannelId, pub protocol_version: u32, pub rest: VxHandlerRest }
 
@@ -472,6 +481,16 @@ impl ChannelHandler {
 //@sub /(?s)self\.node\.with_channel_base\(&self\.channel_id, \|base\| \{.*?\n\s*\}\);/ => self.vx_with_channel_base_get_point(commitment_number);
 //@sub /core::result::Result<\(PublicKey, Option<SecretKey>\), status::Status>/ => Result<(PublicKey, Option<SecretKey>), Status>
 //@sub /(?s)Ok\(Box::new\(msgs::GetPerCommitmentPointReply \{\s*point: (.*?),\s*secret: (\w+),\s*\}\)\)/ => Ok(vx_reply_point(\1, \2))
+//@end
+
+// ------------------------------------------------ CheckFutureSecret (an equality test on a secret the peer presents; answers a boolean)
+//@fn vls-protocol-signer/src/handler.rs :: impl Handler for ChannelHandler :: do_handle closure=1 after="Message::CheckFutureSecret\(m\) =>" as=check_future_secret_closure props=C01,C10
+//@sig fn check_future_secret_closure(&self, chan: &mut VxChan, m: &CheckFutureSecret, secret_key: SecretKey) -> (r: Result<bool, Status>)
+    ensures
+        // the request reads the channel and changes NOTHING of it - in particular not the holder commitment counter that bounds
+        // which secrets may be released
+        *final(chan) == *old(chan),                                                                            //[C01.handler.check-future-secret-changes-nothing] [C10.handler.check-future-secret-changes-nothing]
+        chan_checked_future_secret(old(chan)@, m.commitment_number, secret_key, r),
 //@end
 
 } // impl
